@@ -8,7 +8,6 @@ import (
 	"os/exec"
 	"path/filepath"
 	"strings"
-	"sync"
 	"time"
 )
 
@@ -20,6 +19,7 @@ type SolveResult struct {
 	Model   string
 	Agree   []string // other solvers that returned the same verdict (thorough)
 	Conflict string
+	FailedConjunct string
 }
 
 type solverSpec struct {
@@ -69,89 +69,203 @@ func runSolver(ctx context.Context, sp solverSpec, file string, timeoutS int, se
 	return res
 }
 
-// solve: staged portfolio. want = "unsat" for proof obligations, "sat" for cover checks.
-func solve(dir string, id int, query string, want string, timeoutS int, seed int, crossCheck bool) SolveResult {
-	file := filepath.Join(dir, fmt.Sprintf("q%05d.smt2", id))
-	full := "(set-logic ALL)\n" + query
-	if err := os.WriteFile(file, []byte(full), 0o644); err != nil {
-		return SolveResult{Status: "error", Output: err.Error()}
+// splitConj: flatten a top-level (and ...) term into its conjuncts.
+func splitConj(t string) []string {
+	t = strings.TrimSpace(t)
+	if !strings.HasPrefix(t, "(and ") {
+		return []string{t}
 	}
-	ctx := context.Background()
-	first := runSolver(ctx, solvers[0], file, min(timeoutS, 10), seed)
-	var results []SolveResult
-	results = append(results, first)
-	decided := func(r SolveResult) bool { return r.Status == "sat" || r.Status == "unsat" }
-	if !decided(first) || crossCheck {
-		// race the others
-		var wg sync.WaitGroup
-		var mu sync.Mutex
-		rctx, cancel := context.WithCancel(ctx)
-		for _, sp := range solvers[1:] {
-			wg.Add(1)
-			go func(sp solverSpec) {
-				defer wg.Done()
-				r := runSolver(rctx, sp, file, timeoutS, seed)
-				mu.Lock()
-				results = append(results, r)
-				if decided(r) && !crossCheck {
-					cancel()
-				}
-				mu.Unlock()
-			}(sp)
-		}
-		wg.Wait()
-		cancel()
-		if !decided(first) {
-			// retry the first solver with the full budget if nobody decided
-			any := false
-			for _, r := range results {
-				if decided(r) {
-					any = true
-				}
+	inner := t[5 : len(t)-1]
+	var parts []string
+	depth, start := 0, 0
+	inBar := false
+	for i := 0; i < len(inner); i++ {
+		c := inner[i]
+		switch {
+		case c == '|':
+			inBar = !inBar
+		case inBar:
+		case c == '(':
+			depth++
+		case c == ')':
+			depth--
+		case c == ' ' && depth == 0:
+			if i > start {
+				parts = append(parts, inner[start:i])
 			}
-			if !any && timeoutS > 10 {
-				results = append(results, runSolver(ctx, solvers[0], file, timeoutS, seed+1))
-			}
+			start = i + 1
 		}
 	}
-	var best *SolveResult
-	for i := range results {
-		r := &results[i]
-		if !decided(*r) {
+	if start < len(inner) {
+		parts = append(parts, inner[start:])
+	}
+	var out []string
+	for _, p := range parts {
+		out = append(out, splitConj(p)...)
+	}
+	return out
+}
+
+type attempt struct {
+	sp      solverSpec
+	seed    int
+	timeout int
+}
+
+// race runs the attempts concurrently; the first decided answer wins and cancels the rest.
+func race(file string, atts []attempt) (SolveResult, []SolveResult) {
+	ctx, cancel := context.WithCancel(context.Background())
+	defer cancel()
+	ch := make(chan SolveResult, len(atts))
+	for _, a := range atts {
+		go func(a attempt) { ch <- runSolver(ctx, a.sp, file, a.timeout, a.seed) }(a)
+	}
+	var all []SolveResult
+	var winner *SolveResult
+	for range atts {
+		r := <-ch
+		all = append(all, r)
+		if winner == nil && (r.Status == "sat" || r.Status == "unsat") {
+			w := r
+			winner = &w
+			cancel()
+		}
+	}
+	if winner != nil {
+		return *winner, all
+	}
+	return SolveResult{Status: "undecided"}, all
+}
+
+// stripQuant replaces every quantified subterm by true (used for cover checks only: the
+// quantifier-free part of the assumptions must be satisfiable along the path).
+func stripQuant(s string) string {
+	var b strings.Builder
+	i := 0
+	for i < len(s) {
+		if strings.HasPrefix(s[i:], "(forall ") || strings.HasPrefix(s[i:], "(exists ") {
+			depth := 0
+			j := i
+			for j < len(s) {
+				if s[j] == '(' {
+					depth++
+				} else if s[j] == ')' {
+					depth--
+					if depth == 0 {
+						break
+					}
+				}
+				j++
+			}
+			b.WriteString("true")
+			i = j + 1
 			continue
 		}
-		if best == nil {
-			best = r
-			continue
-		}
-		if r.Status != best.Status {
-			best.Conflict = fmt.Sprintf("%s says %s but %s says %s", best.Solver, best.Status, r.Solver, r.Status)
-		} else {
-			best.Agree = append(best.Agree, r.Solver)
-		}
+		b.WriteByte(s[i])
+		i++
 	}
-	if best == nil {
-		r := results[0]
-		for _, x := range results {
+	return b.String()
+}
+
+// solveOne: one SMT file through the staged portfolio. Proof search on these VCs is bimodal (an
+// attempt either succeeds within a fraction of a second or diverges), so many short attempts with
+// different seeds are raced before the long ones.
+func solveOne(file string, timeoutS int, seed int, crossCheck bool) SolveResult {
+	z3n, cvc, z3o := solvers[0], solvers[1], solvers[2]
+	short := min(timeoutS, 3)
+	best, all := race(file, []attempt{{z3n, seed, short}, {z3o, seed, short}, {z3n, seed + 1, short}})
+	if best.Status == "undecided" {
+		var more []SolveResult
+		best, more = race(file, []attempt{{z3o, seed + 1, short}, {z3n, seed + 2, short}, {z3n, seed + 3, short}, {z3o, seed + 2, short}, {z3n, seed + 4, short}, {z3o, seed + 3, short}, {cvc, seed, short}})
+		all = append(all, more...)
+	}
+	if best.Status == "undecided" {
+		var more []SolveResult
+		best, more = race(file, []attempt{{cvc, seed, timeoutS}, {z3n, seed + 5, timeoutS}, {z3n, seed + 6, timeoutS}, {z3o, seed + 4, timeoutS}, {z3n, seed, timeoutS}, {z3o, seed, timeoutS}})
+		all = append(all, more...)
+	}
+	if best.Status == "undecided" {
+		r := SolveResult{Status: "unknown", Solver: "portfolio"}
+		var parts []string
+		for _, x := range all {
 			if x.Status == "timeout" {
-				r = x
+				r.Status = "timeout"
 			}
+			r.Seconds += x.Seconds
+			parts = append(parts, fmt.Sprintf("%s: %s (%.1fs)", x.Solver, x.Status, x.Seconds))
 		}
-		var all []string
-		for _, x := range results {
-			all = append(all, fmt.Sprintf("%s: %s (%.1fs)", x.Solver, x.Status, x.Seconds))
-		}
-		r.Output = strings.Join(all, "; ")
+		r.Output = strings.Join(parts, "; ")
 		return r
 	}
-	if best.Status == "sat" && want == "unsat" {
-		// fetch a model from z3-new
-		mfile := filepath.Join(dir, fmt.Sprintf("q%05d_model.smt2", id))
-		_ = os.WriteFile(mfile, []byte("(set-option :produce-models true)\n"+full+"(get-model)\n"), 0o644)
-		mr := runSolver(ctx, solvers[0], mfile, min(timeoutS, 10), seed)
-		if mr.Status == "sat" {
-			best.Model = mr.Output
+	if crossCheck {
+		// a second, different solver must not contradict the answer
+		others := []solverSpec{cvc, z3o}
+		if strings.HasPrefix(best.Solver, "z3-4") {
+			others = []solverSpec{z3n, cvc}
+		} else if strings.HasPrefix(best.Solver, "cvc5") {
+			others = []solverSpec{z3n, z3o}
+		}
+		for _, sp := range others {
+			r := runSolver(context.Background(), sp, file, min(timeoutS, 20), seed)
+			if r.Status == best.Status {
+				best.Agree = append(best.Agree, r.Solver)
+			} else if r.Status == "sat" || r.Status == "unsat" {
+				best.Conflict = fmt.Sprintf("%s says %s but %s says %s", best.Solver, best.Status, r.Solver, r.Status)
+			}
 		}
 	}
-	return *best
+	return best
+}
+
+// solve: discharge one obligation. Conjunctive goals are split and each conjunct is decided on its own.
+func solve(dir string, id int, e *Enc, o *Obl, timeoutS int, seed int, crossCheck bool) SolveResult {
+	want := "unsat"
+	conds := []T{o.Cond}
+	if o.Cover {
+		want = "sat"
+	} else if cs := splitConj(o.Cond.S); len(cs) > 1 {
+		conds = nil
+		for _, c := range cs {
+			conds = append(conds, T{c, SBool})
+		}
+	}
+	total := SolveResult{Status: want}
+	for k, c := range conds {
+		sub := *o
+		sub.Cond = c
+		file := filepath.Join(dir, fmt.Sprintf("q%05d_%d.smt2", id, k))
+		full := "(set-logic ALL)\n" + e.Query(&sub)
+		if o.Cover {
+			full = stripQuant(full)
+		}
+		if err := os.WriteFile(file, []byte(full), 0o644); err != nil {
+			return SolveResult{Status: "error", Output: err.Error()}
+		}
+		r := solveOne(file, timeoutS, seed, crossCheck)
+		total.Seconds += r.Seconds
+		if total.Solver == "" {
+			total.Solver = r.Solver
+		} else if !strings.Contains(total.Solver, r.Solver) {
+			total.Solver += "+" + r.Solver
+		}
+		total.Agree = r.Agree
+		if r.Conflict != "" {
+			total.Conflict = r.Conflict
+		}
+		if r.Status != want {
+			total.Status = r.Status
+			total.Output = r.Output
+			total.FailedConjunct = c.S
+			if r.Status == "sat" && want == "unsat" {
+				mfile := filepath.Join(dir, fmt.Sprintf("q%05d_%d_model.smt2", id, k))
+				_ = os.WriteFile(mfile, []byte("(set-option :produce-models true)\n"+full+"(get-model)\n"), 0o644)
+				mr := runSolver(context.Background(), solvers[0], mfile, min(timeoutS, 10), seed)
+				if mr.Status == "sat" {
+					total.Model = mr.Output
+				}
+			}
+			return total
+		}
+	}
+	return total
 }
